@@ -895,6 +895,9 @@ theorem evalCondE_pure (subs : SubEnv) (lw : Nat) (r : Row) (c : CondE) (h : con
   | truth a =>
     simp only [condPure] at h
     simp only [evalCondE, evalCond, evalExprE_pure subs lw r a h]
+  | like neg a p =>
+    simp only [condPure, Bool.and_eq_true] at h
+    simp only [evalCondE, evalCond, evalExprE_pure subs lw r a h.1, evalExprE_pure subs lw r p h.2]
   | «exists» s => simp [condPure] at h
   | inSub neg a s => simp [condPure] at h
   | anySub op a s => simp [condPure] at h
